@@ -13,6 +13,8 @@ SHAPES_LOOKUP = [
     ("/...", None), ("/.../cfg", None), ("/p/...", None), ("/p/.../q", None), ("/p/x-...", None),
     ("/p/...-y", None), ("/p/x-...-y/q/r", None), ("/p/@@/q", "@@"), ("/@@.cfg", "@@"), ("/p/{id}", "{id}"),
     ("/p/....", None), ("/p/x....y", None), ("/p/ab...ba", None), ("/é/...", None), ("/p//...", None),
+    # in-segment prefix and suffix that overlap (a tail of the prefix is a head of the suffix)
+    ("/boot/pxe-...-pxe", None), ("/a...aa", None), ("/p/xy@@yx/q", "@@"), ("/p/aa...aa", None),
 ]
 SHAPES_BAD = [
     ("/p/a...b...c", None), ("/.../...", None), ("/p", None), ("p/...", None), ("/p/.../", None), ("/p/...", ""),
@@ -99,8 +101,34 @@ def substituted(cfg, value):
     return rp
 
 
+def overlap_segments(cfg):
+    """request segments that start with the in-segment prefix and end with the in-segment suffix of the placeholder
+    segment although they are NOT prefix + v + suffix for a non-empty v (prefix and suffix overlap, or v is empty)"""
+    rp = cfg["request_path"]
+    ph = cfg.get("placeholder") if cfg.get("placeholder") is not None else "..."
+    if not ph or ph not in rp:
+        return []
+    for seg in rp.split("/"):
+        if ph in seg:
+            pre, _, suf = seg.partition(ph)
+            out = [pre + suf]
+            for k in range(1, min(len(pre), len(suf)) + 1):
+                if pre[-k:] == suf[:k]:
+                    out.append(pre + suf[k:])
+            return [(seg, o) for o in out if pre and suf]
+    return []
+
+
+NUL_QUERIES = ["?x=%00", "?%00", "?\x00", "?a=1&b=%00c", "?x=/p%00"]
+
+
 def c06_request(rng, cfg, mode, value, style):
     base = substituted(cfg, value)
+    ov = overlap_segments(cfg)
+    if ov and cfg.get("lookup_key") and rng.random() < 0.3:
+        seg, bad = rng.choice(ov)
+        rp = cfg["request_path"]
+        base = rp.replace(seg, bad, 1)
     extra = rng.choice(EXTRAS) if (mode == "dir" or rng.random() < 0.25) else ""
     if mode == "dir" and rng.random() < 0.1:
         extra = ""
@@ -108,6 +136,11 @@ def c06_request(rng, cfg, mode, value, style):
     if style == "valid":
         if rng.random() < 0.5:
             req = pct_some(rng, req, 0.15)
+        if rng.random() < 0.12:
+            # a NUL byte (raw or percent-encoded) that occurs only in the query string
+            req = req.split("?", 1)[0] + rng.choice(NUL_QUERIES)
+        elif rng.random() < 0.1:
+            req = req.split("?", 1)[0] + rng.choice(["?x=1", "?", "?a=%41&b", "?/p/other"])
         return req
     if style == "mutated":
         segs = req.split("/")
